@@ -573,6 +573,8 @@ func OpenWith(path, tsFile string, nLog, hLog, cLog appendable.Appendable, opts 
 		return nil, err
 	}
 
+	physicalCLogSize := cLogSize
+
 	rem := cLogSize % cLogEntrySize
 	if rem > 0 {
 		cLogSize -= rem
@@ -714,6 +716,24 @@ func OpenWith(path, tsFile string, nLog, hLog, cLog appendable.Appendable, opts 
 	err = t.cLog.SetOffset(t.committedLogSize)
 	if err != nil {
 		return nil, fmt.Errorf("%w: while setting initial offset of commit log for index '%s'", err, path)
+	}
+
+	if physicalCLogSize > t.committedLogSize && !opts.readOnly {
+		// The discarded entries are wiped out: setting the offset does not shrink the file and an entry left behind
+		// would be taken for a valid one at a later opening, once newer entries have been written in front of it
+		_, _, err = t.cLog.Append(make([]byte, physicalCLogSize-t.committedLogSize))
+		if err == nil {
+			err = t.cLog.Flush()
+		}
+		if err == nil {
+			err = t.cLog.Sync()
+		}
+		if err == nil {
+			err = t.cLog.SetOffset(t.committedLogSize)
+		}
+		if err != nil {
+			return nil, fmt.Errorf("%w: while wiping discarded entries out of the commit log for index '%s'", err, path)
+		}
 	}
 
 	opts.logger.Infof("index '%s' {ts=%d, discarded_snapshots=%d} successfully loaded", path, t.Ts(), discardedCLogEntries)
